@@ -2,6 +2,11 @@ import CalicoVerif.Proofs.C26Ghost
 /-!
 C26 — Datastore watchers converge across watch failures and resyncs.
 
+The UpdateProcessor is STATEFUL: any `Proc` (a `Process` function of the private state since the last
+`OnSyncerStarting` and the KV); the model records that the real code calls `OnSyncerStarting` before EVERY List of a
+full resync (`WC.notifyConverter` in `listStep`), and every convergence statement is relative to a FRESH processor
+(`convSeq p [] …`).
+
 Model: `Model/C26.lean` — one `watcherCache` as a machine over scripted List outcomes
 (ok / not-found / expired / other ± retry-timeout elapsed), Watch-create outcomes (expired / connection
 refused ± timeout / not supported / other) and watch events (add/modify, delete, bookmark, expired, error,
@@ -151,14 +156,14 @@ def COp.WF : COp → Prop
 
 def WC.stepOp (wc : WC) : COp → WC
   | .call l w f e => runCall wc l w f e
-  | .stop => ({ wc with out := [] }).sendDeletionsForAll
+  | .stop => ({ wc with out := [], resets := 0 }).sendDeletionsForAll
 
 structure Sess where
   wc : WC
   /-- everything the cache has put on the results channel so far -/
   total : List Res
 
-def Sess.init (procMode : Nat) (sendDeletes : Bool) : Sess := ⟨WC.new procMode sendDeletes, []⟩
+def Sess.init (proc : Option Proc) (sendDeletes : Bool) : Sess := ⟨WC.new proc sendDeletes, []⟩
 
 def Sess.step (s : Sess) (op : COp) : Sess := ⟨s.wc.stepOp op, s.total ++ (s.wc.stepOp op).out⟩
 
@@ -171,21 +176,21 @@ structure SInv (s : Sess) : Prop where
   quiet : quietFrom stWait s.total = true
   owed : s.wc.status = stWait → s.wc.rev = 0
 
-theorem SInv.init (m : Nat) (sd : Bool) : SInv (Sess.init m sd) :=
+theorem SInv.init (m : Option Proc) (sd : Bool) : SInv (Sess.init m sd) :=
   ⟨rfl, fun _ => rfl, rfl, rfl, fun _ => rfl⟩
 
 /-- The per-call invariant at the start of a call (any cache whose `oldResources` is nil). -/
 theorem start_good (wc : WC) (hidle : wc.old = none) :
-    Good (fun k => lookup wc.res k) wc.status { wc with out := [] } := by
+    Good (fun k => lookup wc.res k) wc.status { wc with out := [], resets := 0 } := by
   refine ⟨⟨?_, ?_, rfl, rfl⟩, hidle⟩
   · intro k hk; simp [oldLookup, hidle] at hk
   · intro k
-    show lookup wc.res k = view { wc with out := [] } k
+    show lookup wc.res k = view { wc with out := [], resets := 0 } k
     simp only [view, oldLookup, hidle, Option.bind_none]
     cases lookup wc.res k <;> rfl
 
 theorem SInv.start {s : Sess} (h : SInv s) :
-    Good (fun k => lookup s.wc.res k) s.wc.status { s.wc with out := [] } := start_good s.wc h.idle
+    Good (fun k => lookup s.wc.res k) s.wc.status { s.wc with out := [], resets := 0 } := start_good s.wc h.idle
 
 /-- Gluing a call's result onto the session. -/
 theorem SInv.glue {s : Sess} (h : SInv s) (w : WC)
@@ -204,12 +209,12 @@ theorem SInv.glue {s : Sess} (h : SInv s) (w : WC)
 /-- What a call does, for any script, on any cache that is between calls. -/
 theorem call_ok_wc (wc : WC) (hidle : wc.old = none) (howed : wc.status = stWait → wc.rev = 0)
     (lists : List ListOut) (watches : List WatchOut) (fin : List KV × Nat) (evs : List Ev) (hfin : fin.2 ≠ 0) :
-    ∃ w1, resyncLoop fin (lists.length + watches.length + 2) { wc with out := [] } false lists watches = some w1 ∧
+    ∃ w1, resyncLoop fin (lists.length + watches.length + 2) { wc with out := [], resets := 0 } false lists watches = some w1 ∧
       Good (fun k => lookup wc.res k) wc.status w1 ∧ w1.status ≠ stWait ∧
       runCall wc lists watches fin evs = eventLoop w1 evs := by
-  have hsome := resyncLoop_some fin hfin (lists.length + watches.length + 2) { wc with out := [] } false lists watches
+  have hsome := resyncLoop_some fin hfin (lists.length + watches.length + 2) { wc with out := [], resets := 0 } false lists watches
     (by omega)
-  cases hr : resyncLoop fin (lists.length + watches.length + 2) { wc with out := [] } false lists watches with
+  cases hr : resyncLoop fin (lists.length + watches.length + 2) { wc with out := [], resets := 0 } false lists watches with
   | none => rw [hr] at hsome; cases hsome
   | some w1 =>
     have hok := resyncLoop_ok fin _ _ false lists watches (start_good wc hidle)
@@ -220,7 +225,7 @@ theorem call_ok_wc (wc : WC) (hidle : wc.old = none) (howed : wc.status = stWait
 
 theorem call_ok {s : Sess} (h : SInv s) (lists : List ListOut) (watches : List WatchOut) (fin : List KV × Nat)
     (evs : List Ev) (hfin : fin.2 ≠ 0) :
-    ∃ w1, resyncLoop fin (lists.length + watches.length + 2) { s.wc with out := [] } false lists watches = some w1 ∧
+    ∃ w1, resyncLoop fin (lists.length + watches.length + 2) { s.wc with out := [], resets := 0 } false lists watches = some w1 ∧
       Good (fun k => lookup s.wc.res k) s.wc.status w1 ∧ w1.status ≠ stWait ∧
       runCall s.wc lists watches fin evs = eventLoop w1 evs :=
   call_ok_wc s.wc h.idle h.owed lists watches fin evs hfin
@@ -248,19 +253,19 @@ theorem SInv.run {s : Sess} (h : SInv s) (ops : List COp) (hwf : ∀ op ∈ ops,
 /-- **The consumer's view is the cache's view, always**: after any session (any scripts, any failures,
 any stops) a consumer that applied every emitted update holds exactly the keys and revisions in the
 cache's `resources`. -/
-theorem downstream_mirrors_cache (m : Nat) (sd : Bool) (ops : List COp) (hwf : ∀ op ∈ ops, op.WF) (k : Nat) :
+theorem downstream_mirrors_cache (m : Option Proc) (sd : Bool) (ops : List COp) (hwf : ∀ op ∈ ops, op.WF) (k : Nat) :
     downFrom emptyView ((Sess.init m sd).run ops).total k = lookup ((Sess.init m sd).run ops).wc.res k :=
   ((SInv.init m sd).run ops hwf).mirror k
 
 /-- **No update while waiting for the datastore**: in the stream of any session, no `updates` result is
 emitted while the last status the cache announced (initially WaitForDatastore) is WaitForDatastore. -/
-theorem quiet_while_waiting (m : Nat) (sd : Bool) (ops : List COp) (hwf : ∀ op ∈ ops, op.WF) :
+theorem quiet_while_waiting (m : Option Proc) (sd : Bool) (ops : List COp) (hwf : ∀ op ∈ ops, op.WF) :
     quietFrom stWait ((Sess.init m sd).run ops).total = true :=
   ((SInv.init m sd).run ops hwf).quiet
 
 /-- The cache's `status` field is the status last announced on the stream, and a cache that is (again)
 waiting has forgotten its watch revision, i.e. will re-list before watching. -/
-theorem status_tracked (m : Nat) (sd : Bool) (ops : List COp) (hwf : ∀ op ∈ ops, op.WF) :
+theorem status_tracked (m : Option Proc) (sd : Bool) (ops : List COp) (hwf : ∀ op ∈ ops, op.WF) :
     lastStatus stWait ((Sess.init m sd).run ops).total = ((Sess.init m sd).run ops).wc.status ∧
     (((Sess.init m sd).run ops).wc.status = stWait → ((Sess.init m sd).run ops).wc.rev = 0) :=
   ⟨((SInv.init m sd).run ops hwf).track, ((SInv.init m sd).run ops hwf).owed⟩
@@ -269,7 +274,7 @@ theorem status_tracked (m : Nat) (sd : Bool) (ops : List COp) (hwf : ∀ op ∈ 
 listed KVs leaves the cache (hence, by `downstream_mirrors_cache`, the consumer) with exactly the converted
 list: entries not in the list are swept, unchanged revisions are kept without an update. -/
 theorem list_converges {m0 : View} {st0 : Nat} {wc : WC} (h : Good m0 st0 wc) (kvs : List KV) (k : Nat) :
-    downFrom m0 (wc.processList kvs).out k = (kvs.flatMap (convert wc.procMode)).foldl applyKV emptyView k ∧
+    downFrom m0 (wc.processList kvs).out k = (convSeq wc.proc wc.pst kvs).foldl applyKV emptyView k ∧
     (wc.processList kvs).status = stInSync := by
   have l := processList_ok h kvs
   exact ⟨by rw [l.good.inv.mirror, l.view], l.status⟩
@@ -278,7 +283,7 @@ theorem list_converges {m0 : View} {st0 : Nat} {wc : WC} (h : Good m0 st0 wc) (k
 By `resyncLoopG_proj` it is the same run as the model's. -/
 def callGhost (wc : WC) (lists : List ListOut) (watches : List WatchOut) (fin : List KV × Nat) :
     Option (WC × Option (List KV) × Bool) :=
-  resyncLoopG fin (lists.length + watches.length + 2) { wc with out := [] } false lists watches none false
+  resyncLoopG fin (lists.length + watches.length + 2) { wc with out := [], resets := 0 } false lists watches none false
 
 /-- The LAST snapshot a List successfully returned during the call, before the watch was created
 (`none` if the call did not list at all). -/
@@ -290,12 +295,12 @@ def callListed (wc : WC) (lists : List ListOut) (watches : List WatchOut) (fin :
   ((callGhost wc lists watches fin).map (·.2.2)).getD false
 
 theorem callGhost_eq {wc : WC} {lists : List ListOut} {watches : List WatchOut} {fin : List KV × Nat} {w1 : WC}
-    (hr : resyncLoop fin (lists.length + watches.length + 2) { wc with out := [] } false lists watches = some w1) :
+    (hr : resyncLoop fin (lists.length + watches.length + 2) { wc with out := [], resets := 0 } false lists watches = some w1) :
     ∃ g b, callGhost wc lists watches fin = some (w1, g, b) := by
-  have hp := resyncLoopG_proj fin (lists.length + watches.length + 2) { wc with out := [] } false lists watches none false
+  have hp := resyncLoopG_proj fin (lists.length + watches.length + 2) { wc with out := [], resets := 0 } false lists watches none false
   rw [hr] at hp
   unfold callGhost
-  cases hc : resyncLoopG fin (lists.length + watches.length + 2) { wc with out := [] } false lists watches none false with
+  cases hc : resyncLoopG fin (lists.length + watches.length + 2) { wc with out := [], resets := 0 } false lists watches none false with
   | none => rw [hc] at hp; cases hp
   | some x =>
     rw [hc] at hp
@@ -307,18 +312,18 @@ lost (it must re-list: start of day, expired watch, too many errors, shutdown de
 List / Watch-create failures and watch events.  The call lists at least once, and afterwards the consumer holds
 exactly conversion(L followed by the watch events processed before the watch broke), where L is the LAST snapshot
 a List returned before the watch was created — not an earlier, stale one. -/
-theorem cache_converges (m : Nat) (sd : Bool) (ops : List COp) (hwf : ∀ op ∈ ops, op.WF)
+theorem cache_converges (m : Option Proc) (sd : Bool) (ops : List COp) (hwf : ∀ op ∈ ops, op.WF)
     (lists : List ListOut) (watches : List WatchOut) (fin : List KV × Nat) (evs : List Ev) (hfin : fin.2 ≠ 0) :
     let s := (Sess.init m sd).run ops
     s.wc.rev = 0 →
     ∃ L, lastListed s.wc lists watches fin = some L ∧ ∀ k,
       downFrom emptyView (s.step (.call lists watches fin evs)).total k =
-        ((L ++ processed evs).flatMap (convert s.wc.procMode)).foldl applyKV emptyView k := by
+        (convSeq s.wc.proc [] (L ++ processed evs)).foldl applyKV emptyView k := by
   intro s hrev
   have h : SInv s := (SInv.init m sd).run ops hwf
   obtain ⟨w1, hr, g1, hs1, hrun⟩ := call_ok h lists watches fin evs hfin
   obtain ⟨g, b, hcg⟩ := callGhost_eq hr
-  have hl := resyncLoopG_last fin s.wc.procMode (lists.length + watches.length + 2) { s.wc with out := [] } false
+  have hl := resyncLoopG_last fin s.wc.proc (lists.length + watches.length + 2) { s.wc with out := [], resets := 0 } false
     lists watches none false h.start (fun c => Or.inr (h.owed c)) rfl (Or.inr (Or.inr hrev)) (w1, g, b) hcg
   obtain ⟨L, hgL, hv, hm1⟩ := hl
   simp only at hgL hv hm1
@@ -328,19 +333,19 @@ theorem cache_converges (m : Nat) (sd : Bool) (ops : List COp) (hwf : ∀ op ∈
   rw [h'.mirror]
   have : (s.step (.call lists watches fin evs)).wc = eventLoop w1 evs := by
     simp only [Sess.step, WC.stepOp, hrun]
-  rw [this, ← g2.view_eq, v2, hm1, List.flatMap_append, List.foldl_append]
-  have : view w1 = (L.flatMap (convert s.wc.procMode)).foldl applyKV emptyView := funext hv
+  rw [this, ← g2.view_eq, v2, hm1, hv.2, convSeq_append, List.foldl_append]
+  have : view w1 = (convSeq s.wc.proc [] L).foldl applyKV emptyView := funext hv.1
   rw [this]
 
 /-- **Resources that vanished are deleted**: in the situation of `cache_converges`, a key that neither the last
 listed snapshot nor the processed events (after conversion) mention is not held by the consumer afterwards —
 whatever it held before. -/
-theorem vanished_deleted (m : Nat) (sd : Bool) (ops : List COp) (hwf : ∀ op ∈ ops, op.WF)
+theorem vanished_deleted (m : Option Proc) (sd : Bool) (ops : List COp) (hwf : ∀ op ∈ ops, op.WF)
     (lists : List ListOut) (watches : List WatchOut) (fin : List KV × Nat) (evs : List Ev) (hfin : fin.2 ≠ 0) :
     let s := (Sess.init m sd).run ops
     s.wc.rev = 0 →
     ∃ L, lastListed s.wc lists watches fin = some L ∧ ∀ k,
-      (∀ kv ∈ (L ++ processed evs).flatMap (convert s.wc.procMode), kv.key ≠ k) →
+      (∀ kv ∈ convSeq s.wc.proc [] (L ++ processed evs), kv.key ≠ k) →
       downFrom emptyView (s.step (.call lists watches fin evs)).total k = none := by
   intro s hrev
   obtain ⟨L, hL, hv⟩ := cache_converges m sd ops hwf lists watches fin evs hfin hrev
@@ -365,7 +370,7 @@ theorem op_insync_listed {s : Sess} (h : SInv s) (op : COp) (hwf : op.WF)
   cases op with
   | stop =>
     exfalso
-    have hn := nn_sendDeletionsForAll ({ s.wc with out := [] } : WC)
+    have hn := nn_sendDeletionsForAll ({ s.wc with out := [], resets := 0 } : WC)
     rcases hn _ hin with h1 | h1
     · cases h1
     · exact h1 rfl
@@ -378,7 +383,7 @@ theorem op_insync_listed {s : Sess} (h : SInv s) (op : COp) (hwf : op.WF)
       rcases nn_eventLoop evs w1 _ hin' with h1 | h1
       · exact h1
       · exact absurd rfl h1
-    have hls := resyncLoopG_insync fin (lists.length + watches.length + 2) { s.wc with out := [] } false lists watches
+    have hls := resyncLoopG_insync fin (lists.length + watches.length + 2) { s.wc with out := [], resets := 0 } false lists watches
       none false (Or.inr (by simp)) (w1, g, b) hcg
     rcases hls with h1 | h1
     · simp only at h1
@@ -389,7 +394,7 @@ theorem op_insync_listed {s : Sess} (h : SInv s) (op : COp) (hwf : op.WF)
 `status InSync`, then some call of that session completed a List — a successful List or the
 "backing API not installed" outcome, which the code deliberately treats as in sync.  In particular the sticky
 InSync of the polling / CRD-missing states (`beginFull`) never produces an InSync by itself. -/
-theorem insync_only_after_list (m : Nat) (sd : Bool) (ops : List COp) (hwf : ∀ op ∈ ops, op.WF) :
+theorem insync_only_after_list (m : Option Proc) (sd : Bool) (ops : List COp) (hwf : ∀ op ∈ ops, op.WF) :
     Res.status stInSync ∈ ((Sess.init m sd).run ops).total → sessionListed (Sess.init m sd) ops = true := by
   have key : ∀ (ops : List COp) (s : Sess), SInv s → (∀ op ∈ ops, op.WF) →
       Res.status stInSync ∈ (s.run ops).total → Res.status stInSync ∈ s.total ∨ sessionListed s ops = true := by
@@ -655,7 +660,7 @@ structure Multi where
   caches : List WC
   ws : WS
 
-def Multi.init (n procMode : Nat) (sd : Bool) : Multi := ⟨List.replicate n (WC.new procMode sd), WS.new n⟩
+def Multi.init (n : Nat) (proc : Option Proc) (sd : Bool) : Multi := ⟨List.replicate n (WC.new proc sd), WS.new n⟩
 
 /-- Cache `i` performs one op; everything it emitted is one consolidation batch for the syncer. -/
 def Multi.step (m : Multi) (iop : Nat × COp) : Multi :=
@@ -722,7 +727,7 @@ theorem MInv.step {m : Multi} (h : MInv m) (iop : Nat × COp) (hwf : iop.2.WF) :
       rw [hcs, List.getElem?_set_ne hne]
       exact c
 
-theorem MInv.init (n procMode : Nat) (sd : Bool) : MInv (Multi.init (n + 1) procMode sd) := by
+theorem MInv.init (n : Nat) (procMode : Option Proc) (sd : Bool) : MInv (Multi.init (n + 1) procMode sd) := by
   refine ⟨⟨by simp [Multi.init, WS.new, aggregate, List.replicate_succ], rfl, rfl, fun c => absurd rfl c⟩, ?_, ?_⟩
   · simp [Multi.init, WS.new]
   · intro i wc hi
@@ -745,14 +750,14 @@ theorem MInv.run {m : Multi} (h : MInv m) (ops : List (Nat × COp)) (hwf : ∀ o
 each running ANY scripts, their batches interleaved in ANY order into the syncer: no `OnUpdates` callback ever
 happens while the last `OnStatusUpdated` was WaitForDatastore.  (This discharges the hypothesis of
 `syncer_quiet_while_waiting` from `quiet_while_waiting` + `status_tracked`.) -/
-theorem syncer_quiet_composed (n procMode : Nat) (sd : Bool) (ops : List (Nat × COp)) (hwf : ∀ o ∈ ops, o.2.WF) :
+theorem syncer_quiet_composed (n : Nat) (procMode : Option Proc) (sd : Bool) (ops : List (Nat × COp)) (hwf : ∀ o ∈ ops, o.2.WF) :
     cbQuiet stWait ((Multi.init (n + 1) procMode sd).run ops).ws.cbs = true :=
   ((MInv.init n procMode sd).run ops hwf).ws.q.quiet
 
 /-- **In-sync only after every resource type — composed**: in the same setting, whenever the syncer's status is
 InSync every cache's own status is InSync (and by `insync_only_after_list` each of them got there through a
 completed List). -/
-theorem syncer_insync_composed (n procMode : Nat) (sd : Bool) (ops : List (Nat × COp)) (hwf : ∀ o ∈ ops, o.2.WF) :
+theorem syncer_insync_composed (n : Nat) (procMode : Option Proc) (sd : Bool) (ops : List (Nat × COp)) (hwf : ∀ o ∈ ops, o.2.WF) :
     let m := (Multi.init (n + 1) procMode sd).run ops
     m.ws.status = stInSync → ∀ (i : Nat) (wc : WC), m.caches[i]? = some wc → wc.status = stInSync := by
   intro m hs i wc hi
@@ -773,7 +778,7 @@ example :
 /-- Mark-and-sweep on the model: the watch expires, the cache re-lists; key 2 vanished during the
 resync and is deleted, key 1's unchanged revision is swallowed, key 3 is new. -/
 example :
-    let wc0 := runCall (WC.new 0 false) [] [] ([⟨1, 5, false⟩, ⟨2, 6, false⟩], 7) [.errExpired]
+    let wc0 := runCall (WC.new none false) [] [] ([⟨1, 5, false⟩, ⟨2, 6, false⟩], 7) [.errExpired]
     let wc1 := runCall wc0 [] [] ([⟨1, 5, false⟩, ⟨3, 8, false⟩], 9) []
     wc0.rev = 0 ∧
     wc1.out = [.status stResync, .updates [⟨3, 8, utNew⟩], .updates [⟨2, 0, utDeleted⟩], .status stInSync] ∧
@@ -797,8 +802,8 @@ example : (∀ op ∈ demoSession, op.WF) ∧ demoCall.WF := by
   subst h
   simp [COp.WF]
 
-example : ((Sess.init 0 false).run demoSession).wc.rev = 0 ∧
-    (((Sess.init 0 false).run demoSession).step demoCall).total =
+example : ((Sess.init none false).run demoSession).wc.rev = 0 ∧
+    (((Sess.init none false).run demoSession).step demoCall).total =
       [.status stResync, .updates [⟨1, 5, utNew⟩], .updates [⟨2, 6, utNew⟩], .status stInSync,
        .status stResync, .backendErr, .status stWait, .status stResync,
        .updates [⟨3, 8, utNew⟩], .updates [⟨2, 0, utDeleted⟩], .status stInSync,
@@ -806,14 +811,24 @@ example : ((Sess.init 0 false).run demoSession).wc.rev = 0 ∧
 
 /-- In that call two Lists fail and the final one succeeds: the ghost names the snapshot the theorem talks about,
 and the call did complete a List. -/
-example : lastListed ((Sess.init 0 false).run demoSession).wc [.other true, .expired] [.other, .connRefused false]
+example : lastListed ((Sess.init none false).run demoSession).wc [.other true, .expired] [.other, .connRefused false]
       ([⟨1, 5, false⟩, ⟨3, 8, false⟩], 9) = some [⟨1, 5, false⟩, ⟨3, 8, false⟩] ∧
-    callListed ((Sess.init 0 false).run demoSession).wc [.other true, .expired] [.other, .connRefused false]
+    callListed ((Sess.init none false).run demoSession).wc [.other true, .expired] [.other, .connRefused false]
       ([⟨1, 5, false⟩, ⟨3, 8, false⟩], 9) = true := by decide
 
 /-- A scripted List succeeds, the Watch then fails five times (forcing a re-list): the LAST list wins. -/
-example : lastListed (WC.new 0 false) [.ok [⟨7, 1, false⟩] 2] [.other, .other, .other, .other, .other]
+example : lastListed (WC.new none false) [.ok [⟨7, 1, false⟩] 2] [.other, .other, .other, .other, .other]
     ([⟨8, 3, false⟩], 4) = some [⟨8, 3, false⟩] := by decide
+
+/-- The REAL-processor scenario (model of the conflict-resolving IPPool processor, `proc2`): List #1 returns two
+resources with the same v1 index (k1 primary, k4 swallowed), the Watch is not supported (re-List), List #2 returns
+only k4.  `OnSyncerStarting` is called before each List (2 calls), so the processor is fresh for List #2: the v1
+key 301 ends with k4's revision — not deleted, not stale. -/
+example :
+    let wc := runCall (WC.new (some proc2) true) [.ok [⟨1, 1, false⟩, ⟨4, 4, false⟩] 5] [.notSupported] ([⟨4, 4, false⟩], 6) []
+    wc.resets = 2 ∧ wc.res = [(301, 4)] ∧
+    wc.out = [.status stResync, .updates [⟨301, 1, utNew⟩], .status stInSync, .updates [⟨301, 4, utUpdated⟩]] ∧
+    convSeq (some proc2) [] [⟨4, 4, false⟩] = [⟨301, 4, false⟩] := by decide
 
 /-- Two caches feeding one syncer: the batches are quiet, the hypothesis of `syncer_quiet_while_waiting` holds. -/
 example : BatchesQuiet (WS.new 2)
